@@ -31,6 +31,127 @@ def _cmp_desc(du, v):
     return (v[1], side(v[2]), side(v[3]))
 
 
+def _aggregate_form(ctx, r1, sp):
+    from ..guards import guards_of
+    from ..numeric import numeric_of
+    cfg, du = cfg_of(sp), du_of(sp)
+    num = numeric_of(sp, du, guards_of(sp))
+    length = ("place", (1, ()))
+    OPAQUE = re.compile(r"::(unwrap_or|unwrap_or_default|unwrap_or_else|saturating_sub|saturating_add|checked_sub|wrapping_sub|min|max|map_or)$")
+
+    def opaque(v, depth=0):
+        if depth > 8 or not isinstance(v, tuple):
+            return False
+        if v[0] == "call":
+            return bool(OPAQUE.search(v[1] or "")) or any(opaque(a, depth + 1) for a in v[2])
+        if v[0] in ("binop", "unop", "cast"):
+            return any(opaque(a, depth + 1) for a in v[1:] if isinstance(a, tuple))
+        return False
+    n = 0
+    for bid in cfg.live_blocks():
+        for st in cfg.blocks[bid]["stmts"]:
+            if st["k"] != "assign" or st["rv"]["k"] != "aggregate" or st["rv"].get("adt") != "range::Range":
+                continue
+            d = dict(zip(st["rv"]["fields"], st["rv"]["ops"]))
+            if "start" not in d or "end" not in d:
+                continue
+            n += 1
+            S, E = du.val_operand(d["start"]), du.val_operand(d["end"])
+            for label, a, b in (("start<=end", S, E), ("end<=length", E, length)):
+                proved = a == b or bool(num.prove_le(a, b, 0, bid))
+                if proved:
+                    r1.instance({"range_built_at_line": st["span"]["line"], "fact": label, "proved": True}, True)
+                elif opaque(a) or opaque(b) or opaque(S) or opaque(E):
+                    r1.instance({"range_built_at_line": st["span"]["line"], "fact": label, "proved": False, "undecided": "a bound is computed by a saturating / defaulting call the numeric engine does not model"}, True)
+                    r1.note("Range built at line %d: %s not decided (bound computed by a saturating / defaulting call)" % (st["span"]["line"], label))
+                else:
+                    r1.instance({"range_built_at_line": st["span"]["line"], "fact": label, "proved": False}, False)
+                    r1.violate("C03|R1|missing|%s|built-%d" % (label, n), "%s builds a Range (line %d) for which %s is not established by a dominating comparison: a range reaching outside the file, or reversed, would be read" % (sp.def_, st["span"]["line"], label), sp.file, st["span"]["line"], sp.def_)
+    if n == 0:
+        r1.violate("C03|R1|anchor-missing|no-range-built", "%s neither updates range.start / range.end nor builds a Range value (anchor missing)" % sp.def_, sp.file, sp.span["line"], sp.def_)
+    r1.floor = min(r1.floor, 2)
+
+
+def _rejection_reason_by_role(sp, err_block, reason):
+    """aggregate form: the comparisons whose rejecting edge dominates an Err, read by the ROLE of their operands (a value that becomes the
+    start / the end of a constructed Range, the file length) instead of by their names"""
+    from ..guards import guards_of
+    from ..numeric import numeric_of
+    cfg, du = cfg_of(sp), du_of(sp)
+    num = numeric_of(sp, du, guards_of(sp))
+    starts, ends = [], []
+    for bid in cfg.live_blocks():
+        for st in cfg.blocks[bid]["stmts"]:
+            if st["k"] == "assign" and st["rv"]["k"] == "aggregate" and st["rv"].get("adt") == "range::Range":
+                d = dict(zip(st["rv"]["fields"], st["rv"]["ops"]))
+                if "start" in d and "end" in d:
+                    starts.append(du.val_operand(d["start"]))
+                    ends.append(du.val_operand(d["end"]))
+    length = ("place", (1, ()))
+
+    def payload_of(v):
+        """(option place aliases) when v is `(o as Some).0` or `o.unwrap_or(c)`"""
+        v = strip_casts(v)
+        if v[0] == "place" and len(v[1][1]) >= 2 and v[1][1][-2][0] == "d" and v[1][1][-2][1] == "Some":
+            return [repr(x) for x in num._aliases((v[1][0], tuple(v[1][1][:-2])))]
+        if v[0] == "call" and (v[1] or "").endswith("Option::<T>::unwrap_or") and v[2] and v[2][0][0] == "place":
+            return [repr(x) for x in num._aliases(v[2][0][1])]
+        return []
+
+    def same(a, b):
+        a, b = strip_casts(a), strip_casts(b)
+        if a == b:
+            return True
+        num.use_block = err_block
+        if num.lin(a) == num.lin(b) and num.lin(a)[0][0] != "val":
+            return True
+        pa, pb = payload_of(a), payload_of(b)
+        return bool(pa and pb and set(pa) & set(pb))
+
+    def roles(v):
+        out = set()
+        if same(v, length):
+            out.add("length")
+        if any(same(v, x) for x in starts):
+            out.add("start")
+        if any(same(v, x) for x in ends):
+            out.add("end")
+        return out
+    other = []
+    for sb in cfg.live_blocks():
+        st = cfg.blocks[sb]["term"]
+        if st["k"] != "switch":
+            continue
+        v, neg = strip_not(du, du.val_operand(st["discr"]))
+        if v[0] != "binop" or v[1] not in ("Gt", "Lt", "Ge", "Le"):
+            continue
+        true_e = false_e = None
+        for val, tb in st["targets"]:
+            if val == 0:
+                true_e, false_e = (sb, st["otherwise"]), (sb, tb)
+        if true_e is None:
+            continue
+        if neg:
+            true_e, false_e = false_e, true_e
+        for edge, truth in ((true_e, True), (false_e, False)):
+            if not cfg.edge_dominates(edge, err_block):
+                continue
+            # the relation that holds on this edge, written as big > small (strict) or big >= small
+            op = v[1] if truth else {"Gt": "Le", "Le": "Gt", "Lt": "Ge", "Ge": "Lt"}[v[1]]
+            big, small = (v[2], v[3]) if op in ("Gt", "Ge") else (v[3], v[2])
+            rb, rs = roles(big), roles(small)
+            if not (rb or rs):
+                continue
+            strict = op in ("Gt", "Lt")
+            if strict and (("start" in rb or "end" in rb) and "length" in rs or ("start" in rb and "end" in rs)):
+                reason = "%s > %s" % ("/".join(sorted(rb)), "/".join(sorted(rs)))
+            elif not strict and (("length" in rb and ("start" in rs or "end" in rs)) or ("end" in rb and "start" in rs)):
+                pass        # a bound check that was passed on the way (start <= end <= length holds for every valid range): not a reason
+            else:
+                other.append((op, "/".join(sorted(rb)) or "?", "/".join(sorted(rs)) or "?"))
+    return reason, other
+
+
 def run(ctx):
     F, G, R = ctx.F, ctx.G, ctx.R
     chk = Check("C03", ctx.tier, "Every definition of a range bound is followed by the three bound checks; rejections are enumerated and answer 416; 206 only with a Range header; the stored Range labels exactly the bytes read; serialisers label parts from the emitted element.")
@@ -70,6 +191,14 @@ def run(ctx):
     # start <= length follows from the other two (start <= end <= length): where both are in force it is not required separately
     others_present = [x for x in want if x != "start<=length" and x in found]
     implied = len(others_present) == len(want) - 1
+    # the parser may instead build each `Range { start, end }` once, from values it has compared before (no `range.start = ..` updates,
+    # no comparisons on the fields): then the two facts start <= end <= length are proved per constructed value (A10)
+    field_form = any(kind in ("assign", "call") and [p_[2] for p_ in pk[1] if isinstance(p_, tuple) and p_[0] == "f"][-1:] in (["start"], ["end"])
+                     and sp.local_name(pk[0]) == "range" for _b, _i, pk, kind in du.writes)
+    form_b = not found and not field_form
+    if form_b:
+        _aggregate_form(ctx, r1, sp)
+        want = {}
     for label, w in want.items():
         ok = label in found or (label == "start<=length" and implied)
         r1.instance({"check": label, "comparison": w, "present": label in found, "implied_by_the_other_two": label == "start<=length" and implied}, ok)
@@ -144,6 +273,8 @@ def run(ctx):
         for sb, (d, te) in checks.items():
             if cfg.edge_dominates(te, b) and d not in want.values() and any(("range." in x or "filelength" in x) for x in d[1:]):
                 other.append(d)
+        if form_b:
+            reason, other = _rejection_reason_by_role(sp, b, reason)
         ok = reason is not None and not other
         r1b.instance({"error_at_line": s["span"]["line"], "reason": reason, "other_comparisons": other}, ok)
         if not ok:
@@ -250,8 +381,22 @@ def run(ctx):
 
     # R4 labelling consistency in the range-header parser
     r4 = chk.rule("R4-label-matches-read", "in the range-header parser the body of every ContentRange comes from read_file_partially(path, R.start, R.end) of the same Range R that is stored as its label, and size derives from the file-length parameter", floor=1)
-    hdu = du_of(hp)
     reads = [(bid, t) for bid, t in hp.calls() if (callee_name(t) or "").endswith("read_file_partially")]
+    hp_entry = hp
+    if not reads:
+        # the part may be read one call down, in a helper the header parser maps over the items (`.split(",").map(|item| read_part(..))`):
+        # the function of the crate, reachable from the header parser, that issues the partial read is judged instead
+        cands = []
+        for n2 in sorted(G.reachable([HEADER_PARSER])):
+            g2 = F.fns.get(n2)
+            if g2 is not None and g2.crate == "rws" and g2.kind in ("Fn", "AssocFn") and n2 != HEADER_PARSER \
+                    and any((callee_name(t2) or "").endswith("read_file_partially") for _, t2 in g2.calls()):
+                cands.append(g2)
+        if len(cands) == 1:
+            hp = ctx.inl(cands[0])
+            reads = [(bid, t) for bid, t in hp.calls() if (callee_name(t) or "").endswith("read_file_partially")]
+    hdu = du_of(hp)
+    len_param = next((i for i in range(1, hp.nargs + 1) if re.search(r"length|size", hp.local_name(i) or "")), 2)
     other_reads = [(bid, t) for bid, t in hp.calls() if re.search(r"(FileExt::read_file$|std::fs::read|std::fs::File::open|as std::io::Read>::read)", callee_name(t) or "")]
     r4.instance({"partial_reads": len(reads), "other_content_reads": len(other_reads)}, ok=len(reads) == 1 and not other_reads)
     if len(reads) != 1 or other_reads:
@@ -279,7 +424,7 @@ def run(ctx):
                     from ..taint import local_deps
                     ld = local_deps(hp)
                     okb = dd["body"].get("k") in ("copy", "move") and t["dest"]["l"] in ld.closure(dd["body"]["l"])
-                    oks = dd["size"].get("k") in ("copy", "move") and 2 in ld.closure(dd["size"]["l"])   # arg 2 = filelength
+                    oks = dd["size"].get("k") in ("copy", "move") and len_param in ld.closure(dd["size"]["l"])   # the file-length parameter
                     r4.instance({"stored_range_is_read_range": okr, "body_from_that_read": okb, "size_from_file_length": oks}, okr and okb and oks)
                     if not (okr and okb and oks):
                         r4.violate("C03|R4|label", "the ContentRange built at line %d does not label the bytes it carries (range same value: %s, body from the read: %s, size from file length: %s)" % (s["span"]["line"], okr, okb, oks), hp.file, s["span"]["line"], hp.def_)
